@@ -148,9 +148,7 @@ def main():
     pops = [('core', 140 if quick else 2500), ('explored', 60 if quick else 400), ('nonkern', 40 if quick else 250)]
     sess = []
     if a.replay_case:
-        case = a.replay_case['case']
-        pop = (case.get('tags') or ['core'])[0]
-        sess = [s for s in sessions_of(case['seed'], pop)['multi'] if s['tags'][1] == case['tags'][1]]
+        sess = docs.replay_sessions(a.replay_case)
     else:
         for k, (pop, n) in enumerate(pops):
             # the explored populations are a FIXED corpus (quick = a prefix of thorough): their failing excerpts are listed one by one
